@@ -158,6 +158,11 @@ func runC07(rc *RunCtx) {
 	out := RunC1(rc, sc)
 	rc.Desc = sc.describe()
 	rc.Nontrivial = len(sc.Chunks) >= 2
+	if out.Err == nil && !isNilResponse(out.Resp) && len(out.Consumed)%2 == 1 {
+		logLine(out.Resp) // the application logs what it got; that must be passive
+	} else if out.Err != nil && len(out.Consumed)%2 == 1 {
+		logLine(out.Err)
+	}
 	checkC07(rc, sc, out)
 	if sc2 != nil && len(out.Next) == 1 {
 		rc.Probe("second_call_on_same_client")
